@@ -30,6 +30,7 @@ import (
 	"github.com/versity/versitygw/auth"
 	"github.com/versity/versitygw/backend"
 	"github.com/versity/versitygw/s3err"
+	"github.com/versity/versitygw/verifhook"
 	"golang.org/x/sys/unix"
 )
 
@@ -165,10 +166,12 @@ func (tmp *tmpfile) link() error {
 	// of last upload completed wins and is not some combination of writes
 	// from simultaneous uploads.
 	objPath := filepath.Join(tmp.bucket, tmp.objname)
+	verifhook.At("link.remove", tmp.bucket, tmp.objname)
 	err := os.Remove(objPath)
 	if err != nil && !errors.Is(err, fs.ErrNotExist) {
 		return fmt.Errorf("remove stale path: %w", err)
 	}
+	verifhook.At("link.removed", tmp.bucket, tmp.objname)
 
 	dir := filepath.Dir(objPath)
 
@@ -195,6 +198,7 @@ func (tmp *tmpfile) link() error {
 	defer dirf.Close()
 
 	for {
+		verifhook.At("link.linkat", tmp.bucket, tmp.objname)
 		err = unix.Linkat(int(procdir.Fd()), filepath.Base(tmp.f.Name()),
 			int(dirf.Fd()), filepath.Base(objPath), unix.AT_SYMLINK_FOLLOW)
 		if errors.Is(err, syscall.EEXIST) {
@@ -210,6 +214,7 @@ func (tmp *tmpfile) link() error {
 		}
 		break
 	}
+	verifhook.At("link.linked", tmp.bucket, tmp.objname)
 
 	err = tmp.f.Close()
 	if err != nil {
@@ -234,7 +239,9 @@ func (tmp *tmpfile) fallbackLink() error {
 	}
 
 	objPath := filepath.Join(tmp.bucket, tmp.objname)
+	verifhook.At("link.rename", tmp.bucket, tmp.objname)
 	err = os.Rename(tempname, objPath)
+	verifhook.At("link.renamed", tmp.bucket, tmp.objname)
 	if err != nil {
 		// rename only works for files within the same filesystem
 		// if this fails fallback to copy
